@@ -124,7 +124,7 @@ pub fn configs(tier: crate::registry::Tier, _seed: u64) -> Vec<crate::registry::
                 if cond >= 1 && (m, n) == (3, 3) {
                     continue;
                 }
-                v.push(entry(Pivots { ring: RingSel::Z, m, n, b, rows, cond, stored_zeros: false }, 3000, 90.0));
+                v.push(entry(Pivots { ring: RingSel::Z, m, n, b, rows, cond, stored_zeros: false }, 10000, 90.0));
             }
         }
         v.push(entry(Pivots { ring: RingSel::Z, m: 2, n: 2, b: 1, rows, cond: 0, stored_zeros: true }, 500, 30.0));
